@@ -100,6 +100,12 @@ Theorem C03_processed_termination_releases_pledge : forall m e pr t m' d,
   d = (ip m' - ip m) + (locked m' - locked m).
 Proof. exact processed_termination_releases_pledge. Qed.
 
+(* a prove-commit batch that names a pre-committed sector twice is rejected as a whole (illegal_state):
+   its deposit cannot be released twice nor its pledge added twice *)
+Theorem C03_duplicate_in_prove_commit_batch_aborts : forall m s p1 p2 l1 l2 l3 r,
+  tx_prove_commit m (l1 ++ (s, p1) :: l2 ++ (s, p2) :: l3) = Ok r -> False.
+Proof. exact duplicate_prove_commit_aborts. Qed.
+
 (* ---- roll-back ---- *)
 Theorem C03_rejected_call_changes_nothing : forall st m e ext o st' c s,
   call st m e ext o = (st', c, s) -> c <> 0 -> st' = st.
